@@ -188,6 +188,11 @@ for arch, fl, fn in [("ppc", "ppc.rs", "ppc_code"), ("sparc", "sparc.rs", "sparc
       functions=[("src/filter/bcj/" + fl, fn)],
       contract="for EVERY buffer length: no index/overflow error, terminates, returns the converted prefix r (multiple of the stride, r+4 > len, 0 if len<4), pos += r, bytes >= r untouched, is_encoder/prev_mask unchanged")
 
+U(id="C01.lzd.ring", props=["C01", "C06", "C04"], backend="verus", verus="lzd.json", harnesses=[], stubs=[],
+  functions=[("src/lz/lz_decoder.rs", "reset"), ("src/lz/lz_decoder.rs", "set_limit"), ("src/lz/lz_decoder.rs", "has_space"),
+             ("src/lz/lz_decoder.rs", "get_byte"), ("src/lz/lz_decoder.rs", "put_byte")],
+  contract="for EVERY dictionary size 1..2^63-1: representation invariant wf (buf.len = buf_size, start <= pos <= full <= buf_size, limit <= buf_size) is preserved by reset/set_limit/put_byte; no index or overflow error under wf; get_byte(d) = buf[(pos-d-1) mod buf_size]; put_byte stores b at pos, advances pos by one, full = max(full,pos), nothing else changes (whole-buffer postcondition: buf' = buf.update(pos,b)); verified exec witness composes them: put,put then get_byte(0),get_byte(1) return the two bytes")
+
 U(id="C11.delta", props=["C11", "C07", "C06", "C19"], file="filter/delta.rs", stubs=[],
   harnesses=["c11_delta_step_inverse", "c11_delta_reference", "c07_delta_split", "c11_delta_new"],
   functions=[("src/filter/delta.rs", "encode", "Delta"), ("src/filter/delta.rs", "decode", "Delta"), ("src/filter/delta.rs", "new", "Delta")],
